@@ -145,4 +145,14 @@ CHECKS["C10"] = {
     "parts": [{"bin": "C10_placement"}],
 }
 
+CHECKS["C12"] = {
+    "registered": True,
+    "engine": "pmc-rt",
+    "technique": "stateless preemption-bounded exhaustive schedule enumeration (= enumeration of migration and recycling patterns) of canary-carrying task bodies on a live 2-worker runtime",
+    "level_text": "Every schedule within the deviation bound - i.e. every pattern of which worker resumes which task and in which order thread objects are recycled - of bodies that plant stack canaries at call depth, key-derived callee-saved register canaries (assembly probe around the switch), task-local data and identity, and then yield or suspend twice, for all four stack classes with 2-3 live tasks, is executed on the real runtime; after every switch everything is compared, locals must lie inside the task's own stack and stacks of live tasks must be disjoint; successors of a predecessor that leaves an unconsumed interruption request and task data behind must start clean; a separate program checks the floating-point control state.",
+    "level_note": "Sequentially consistent interleavings only; 2 workers; default stack sizes, default guard-page setting; stack overflow probing is not attempted; the 'program' dimension is small (two switches, depth 0 or 3) - the value of the check is the exhaustive migration x recycling product.",
+    "rule": "pmc-rt: canary bodies x stack classes x switch kinds (data choices) x all schedules within the deviation bound",
+    "parts": [{"bin": "C12_context"}],
+}
+
 PENDING = {}
